@@ -142,7 +142,7 @@ func genSpec(t *rapid.T) *spec {
 	}
 	for _, n := range fwdNames {
 		if rapid.IntRange(0, 3).Draw(t, "supplied") == 0 {
-			s.headers = append(s.headers, hdr{n, rapid.SampledFrom([]string{"https", "wss", "up.example", "8443", "edge-1", "203.0.113.9", "http"}).Draw(t, "fv")})
+			s.headers = append(s.headers, hdr{n, rapid.SampledFrom([]string{"https", "wss", "up.example", "8443", "edge-1", "203.0.113.9", "http", ""}).Draw(t, "fv")})
 		}
 	}
 	tokens := append(append([]string{"close", "keep-alive", "X-Not-Present"}, e2eNames...), fwdNames[:5]...)
